@@ -188,6 +188,11 @@ def run(prog, R):
     # ---- C02.3 same trivia predicate on both sides
     TRIV = "oq3_parser::syntax_kind::SyntaxKind::is_trivia"
     ti = R.anchor(prog, "oq3_parser::shortcuts::LexedStr::to_input")
+    if ti:
+        import C15
+        # a composite token must be made of adjacent raw tokens only: otherwise the tree builder, which re-inserts
+        # trivia *before* a token, attributes n_raw_tokens to the wrong raw tokens and the tail of the text is lost
+        C15.trivia_resets_joint(prog, R, ti, "C02.3-trivia")
     users = {}
     for fn in ("oq3_parser::shortcuts::LexedStr::to_input", "oq3_parser::shortcuts::Builder::eat_trivias", "oq3_parser::shortcuts::Builder::eat_n_trivias", "oq3_parser::shortcuts::Builder::enter::{closure#0}"):
         b = prog.body(fn)
